@@ -40,7 +40,7 @@ func init() {
 		Level:       "Static rules deciding named necessary conditions (no un-clamped look-ahead into the decompressed block, every access behind num < numDocs, the visitor's result alone controls the loop, writers and reader use the same block size). Partial: grouping/order of values and the re-encode arithmetic are value properties and not decided.",
 		Explanation: "LOOKAHEAD-CLAMP enumerates every []byte slice expression whose upper bound is offset+constant and requires the bound to be clamped by a comparison with len/cap of the same buffer (siblings copyStoredDocs and getDocStoredOffsets are both covered); VISIT-GUARD proves by dominance that every read and every visitor call in visitDocument is behind num < footer.numDocs and that the loop variable is defined only by the visitor's result; BLOCK-SELECT folds the constant passed to newChunkedDocumentCoder by both writers and the reader's divisor and requires them equal.",
 		NotCovered:  "grouping and order of delivered values, correctness of the merge re-encode and of the byte-copy path arithmetic",
-		Uses:        []RuleUse{{"LOOKAHEAD-CLAMP", ""}, {"VISIT-GUARD", ""}, {"BLOCK-SELECT", ""}, {"STORED-OFFSET-SOURCE", ""}, {"BLOCK-CURSOR", ""}, {"RESET-COMPLETE", ""}, {"ESCAPE-FRESH", ""}},
+		Uses:        []RuleUse{{"LOOKAHEAD-CLAMP", ""}, {"VISIT-GUARD", ""}, {"BLOCK-SELECT", ""}, {"STORED-OFFSET-SOURCE", ""}, {"BLOCK-CURSOR", ""}, {"LOOP-BOUND-AGREE", ""}, {"RESET-COMPLETE", ""}, {"ESCAPE-FRESH", ""}},
 	})
 	prop(&Property{
 		ID:          "C08",
@@ -49,7 +49,7 @@ func init() {
 		Level:       "Static rules deciding named necessary conditions of the count/never-panic clauses. Partial: FST range/automaton semantics and term order live in vellum and are not analysed.",
 		Explanation: "INIT-BEFORE-READ proves every PostingsList.read receiver is a freshly re-initialised list (so a count can never inherit the 1-hit flag of the previous term); NIL-RESULT derives the functions that may return (nil,nil) and proves every dereference or escaping interface conversion of such a result crossed a nil test on all paths (unknown field => emptyDictionary, never a nil pointer in an interface); NIL-FIELD proves every method call on Dictionary.fst/fstReader is dominated by a nil test; INSERT-GUARD proves terms are inserted only with postingsOffset>0 and writePostings returns 0 for empty bitmaps; ONEHIT-AWARE proves every content use of PostingsList.postings also dispatches on normBits1Hit.",
 		NotCovered:  "vellum FST range/automaton semantics, term order, numeric correctness of counts under exclusion bitmaps",
-		Uses:        []RuleUse{{"INIT-BEFORE-READ", ""}, {"NIL-RESULT", ""}, {"NIL-FIELD", ""}, {"INSERT-GUARD", ""}, {"ONEHIT-AWARE", ""}},
+		Uses:        []RuleUse{{"INIT-BEFORE-READ", ""}, {"NIL-RESULT", ""}, {"NIL-FIELD", ""}, {"INSERT-GUARD", ""}, {"ONEHIT-AWARE", ""}, {"PARALLEL-APPEND", ""}, {"TERM-BOUNDARY", ""}, {"ENUM-SKIP-GUARD", ""}},
 	})
 	prop(&Property{
 		ID:          "C18",
@@ -58,7 +58,7 @@ func init() {
 		Level:       "Static rules deciding named necessary conditions (never a nil dereference for unknown fields, both encodings reach the union, the cached dictionary is replaced whenever the field changes). Partial: set equality itself is a value property.",
 		Explanation: "NIL-RESULT covers the (*Segment).dictionary call in DocsMatchingTerms (path-sensitive, phi-aware: the cached dictionary variable is a loop phi); ONEHIT-AWARE covers OrInto; FIELD-CACHE proves the dictionary reload is control-dependent on thisField != lastField and that lastField and the cached dictionary are updated together on that path only.",
 		NotCovered:  "equality of the returned set with the union (value property)",
-		Uses:        []RuleUse{{"NIL-RESULT", ""}, {"NIL-FIELD", ""}, {"ONEHIT-AWARE", ""}, {"FIELD-CACHE", ""}},
+		Uses:        []RuleUse{{"NIL-RESULT", ""}, {"NIL-FIELD", ""}, {"ONEHIT-AWARE", ""}, {"FIELD-CACHE", ""}, {"TERM-BOUNDARY", ""}},
 	})
 }
 
@@ -103,7 +103,7 @@ func init() {
 		Level:       "Static rules deciding named necessary conditions: which quantity is accumulated into which statistic (units), that the two lanes never cross anywhere between builder/merger, file record, loader, Segment fields and CollectionStats, and that Merge adds component-wise unconditionally. Partial: that the sums are numerically right for a given input is a value property.",
 		Explanation: "STAT-UNITS identifies the maps of the two lanes from the arguments of persistFields and the stores to Segment.fieldDocs/fieldFreqs (provenance of map creation sites), then classifies the increment of every MapUpdate on them: the frequency lane must add Field.Length()/Posting.Frequency(), the document lane 1 per element of a per-document set or the tracker's cardinality. STAT-LANES checks the record order in persistFields, the decode order in loadFields, initSegmentBase's parameter-to-field mapping, the three CollectionStats fields and accessors, unconditional component-wise Merge, and that the merger clears the per-field document tracker before use on every path.",
 		NotCovered:  "numeric correctness of the sums for particular inputs/deletions (value property)",
-		Uses:        []RuleUse{{"STAT-UNITS", ""}, {"STAT-LANES", ""}},
+		Uses:        []RuleUse{{"STAT-UNITS", ""}, {"STAT-LANES", ""}, {"TAIL-READ-BOUNDED", ""}},
 	})
 }
 
@@ -115,7 +115,7 @@ func init() {
 		Level:       "Static rules deciding the shape of the map for every input: one table per input segment of that segment's length, filled exactly once per document with the sentinel or a consecutive counter threaded across segments, defined on every success path (incl. zero survivors), published by the Merger, survivor count from the bitmaps. Partial: that content is found at the reported number is a value property (its structural part is REMAP under C02).",
 		Explanation: "DOCNUMS-DEFINED: phi-aware check that no nil-error return of mergeToWriter carries a nil map. DOCNUMS-SHAPE: enumerates every acyclic path through one iteration of the per-document loop (mergeStoredAndRemapSegment) and of the per-segment loop (mergeStoredAndRemap): exactly one store table[docNum] per path, the sentinel exactly on the drops.Contains edge with the counter unchanged, otherwise the counter which advances by exactly one; each segment iteration fills then appends exactly one make([]uint64, seg.footer.numDocs); counter threaded from 0 through the fill loop / callee result; zero-survivor branch builds all-dropped tables. DOCNUMS-PUBLISHED: Merger.WriteTo stores merge's result into the field DocumentNumbers returns; Merge/merge pass every segment and the caller's drops unchanged; docDropped folds to MaxInt64; footer.numDocs = computeNewDocCount. STORED-OFFSET-SOURCE: every stored-offset index entry is coder.Size() taken right before coder.Add of the same document.",
 		NotCovered:  "that the content of a surviving document is found at its reported number (value property); bitmaps that violate the input contract",
-		Uses:        []RuleUse{{"DOCNUMS-DEFINED", ""}, {"DOCNUMS-SHAPE", ""}, {"DOCNUMS-PUBLISHED", ""}, {"STORED-OFFSET-SOURCE", ""}},
+		Uses:        []RuleUse{{"DOCNUMS-DEFINED", ""}, {"DOCNUMS-SHAPE", ""}, {"DOCNUMS-PUBLISHED", ""}, {"STORED-OFFSET-SOURCE", ""}, {"REMAP-TABLE-READONLY", ""}},
 	})
 }
 
@@ -148,7 +148,7 @@ func init() {
 		Level:       "Static rules deciding agreement clauses for every input: the writer and the reader of each of the 11 on-disk records use the same sequence of primitives (kinds, widths, loop structure, byte order; tail-first trailers reversed), every section the loader parses is present on every writer path or skipped under a condition the loader also tests, layout adjacency assumptions hold, the in-memory image is the written bytes, WriteTo returns data+footer length. Partial: identical ANSWERS after load are a value property.",
 		Explanation: "WIRE-AGREE extracts, from the type-checked AST, the source-ordered sequence of wire primitives (binary.Write/PutUvarint/writeUvarints/PutUintN/raw Write vs binary.Uvarint/UintN/raw Data.Read) of each writer and reader region with loops as nested units and compares the 11 pairs (builder and merger writers must also agree with each other; footer fields must correspond by name; parseFooter's offsets must form a contiguous tail of footerLen bytes with widths matching their decodes). SECTION-PRESENT proves by dominance that load() always runs the three section loaders and that each section is written on every successful path of both data-section writers, or skipped exactly on the zero-document branch the loader also guards. ADJACENCY, MEM-IMAGE and LEN-RETURN pin the implicit layout assumptions, the builder's memory image and the byte counts.",
 		NotCovered:  "identical answers after load (value property); file-backed vs memory-backed look-ahead near the end of data (layout arithmetic)",
-		Uses:        []RuleUse{{"WIRE-AGREE", ""}, {"SECTION-PRESENT", ""}, {"ADJACENCY", ""}, {"MEM-IMAGE", ""}, {"LEN-RETURN", ""}, {"TAIL-READ-BOUNDED", ""}, {"DV-SECTION-COMPLETE", ""}},
+		Uses:        []RuleUse{{"WIRE-AGREE", ""}, {"SECTION-PRESENT", ""}, {"ADJACENCY", ""}, {"MEM-IMAGE", ""}, {"LEN-RETURN", ""}, {"TAIL-READ-BOUNDED", ""}, {"DV-SECTION-COMPLETE", ""}, {"PER-FIELD-COMPLETE", ""}},
 	})
 	prop(&Property{
 		ID:          "C10",
@@ -178,7 +178,7 @@ func init() {
 		Level:       "Static rules deciding named NECESSARY conditions: every document number written is the remapped one, location field ids use the merged map, doc values are re-added under new numbers and dropped ones skipped, the parallel per-iterator slices come from one filtered result, the byte-copy path is taken only for identical field lists without deletions, 1-hit encoding only under its full conjunction, chunk size from the footer quantities, terms inserted only with postings. Observational equality with a rebuild is a value property and is NOT decided.",
 		Explanation: "REMAP (mergeTermFreqNormLocs, buildMergedDocVals visitor, persistMergedRestField), CHUNK-AGREE (prepareNewTerm traced through its unique call chain to the values stored in the merged footer), LENPREFIX-AGREE, FASTPATH-GUARD (+ mergeFields compares every field of every segment), INSERT-GUARD, ONEHIT-GUARD, FIELD-ORDER (mergeFields), STORED-OFFSET-SOURCE, FIELDID-LANE, DV-SECTION-COMPLETE.",
 		NotCovered:  "k-way enumeration order, the re-encoding arithmetic, correctness of the stored-field byte copy (values)",
-		Uses:        []RuleUse{{"REMAP", ""}, {"CHUNK-AGREE", ""}, {"LENPREFIX-AGREE", ""}, {"FASTPATH-GUARD", ""}, {"INSERT-GUARD", ""}, {"ONEHIT-GUARD", ""}, {"FIELD-ORDER", ""}, {"STORED-OFFSET-SOURCE", ""}, {"BLOCK-CURSOR", ""}, {"FIELDID-LANE", ""}, {"DV-SECTION-COMPLETE", ""}},
+		Uses:        []RuleUse{{"REMAP", ""}, {"CHUNK-AGREE", ""}, {"LENPREFIX-AGREE", ""}, {"FASTPATH-GUARD", ""}, {"INSERT-GUARD", ""}, {"ONEHIT-GUARD", ""}, {"FIELD-ORDER", ""}, {"STORED-OFFSET-SOURCE", ""}, {"BLOCK-CURSOR", ""}, {"FIELDID-LANE", ""}, {"DV-SECTION-COMPLETE", ""}, {"PER-FIELD-COMPLETE", ""}, {"LOOP-BOUND-AGREE", ""}, {"PARALLEL-APPEND", ""}, {"REMAP-TABLE-READONLY", ""}, {"TERM-BOUNDARY", ""}, {"ENUM-SKIP-GUARD", ""}},
 	})
 	prop(&Property{
 		ID:          "C07",
